@@ -1,4 +1,4 @@
-"""RegexTables.v: the table-like parts of brush's pattern -> regex translation.
+"""C08RegexTables.v: the table-like parts of brush's pattern -> regex translation.
 
   brush-core/src/regex.rs    regex_char_is_special      (chars escaped in *literal* pattern pieces)
                              compile_regex              the flag prefix put before every pattern regex
@@ -21,12 +21,12 @@ def _char_lit(tok):
     tok = tok.strip()
     m = re.fullmatch(r"'(\\.|[^\\'])'", tok)
     if not m:
-        raise core.CheckBroken("ex_regex: unrecognised char literal %r" % tok)
+        raise core.CheckBroken("ex_c08_regex: unrecognised char literal %r" % tok)
     body = m.group(1)
     if body.startswith("\\"):
         esc = {"\\\\": "\\", "\\'": "'", "\\n": "\n", "\\t": "\t", "\\r": "\r", "\\0": "\0"}
         if body not in esc:
-            raise core.CheckBroken("ex_regex: unrecognised escape %r" % tok)
+            raise core.CheckBroken("ex_c08_regex: unrecognised escape %r" % tok)
         return esc[body]
     return body
 
@@ -36,7 +36,7 @@ def _matches_fn(src, name, where):
     m = re.search(r"(?:pub(?:\(crate\))?\s+)?const\s+fn\s+%s\s*\(\s*c\s*:\s*char\s*\)\s*->\s*bool\s*\{\s*matches!\s*\(\s*c\s*,(.*?)\n\s*\)\s*\}" % name,
                   src, flags=re.S)
     if not m:
-        raise core.CheckBroken("ex_regex: %s in %s no longer has the shape `matches!(c, 'x' | ...)`" % (name, where))
+        raise core.CheckBroken("ex_c08_regex: %s in %s no longer has the shape `matches!(c, 'x' | ...)`" % (name, where))
     body = m.group(1)
     # split on | outside quotes
     toks, cur, inq, i = [], "", False, 0
@@ -58,7 +58,7 @@ def _matches_fn(src, name, where):
     toks.append(cur)
     chars = [_char_lit(t) for t in toks if t.strip()]
     if not chars:
-        raise core.CheckBroken("ex_regex: %s: empty char list" % name)
+        raise core.CheckBroken("ex_c08_regex: %s: empty char list" % name)
     return chars
 
 
@@ -66,7 +66,7 @@ def _peg_rule(src, name):
     """text of `rule NAME(...) ... =` up to the next blank-line-separated `rule`/closing brace"""
     m = re.search(r"\n\s*(?:pub(?:\(crate\))?\s+)?rule\s+%s\s*\([^)]*\)\s*(?:->\s*[^=]+)?=\s*(.*?)(?=\n\s*\n|\n\s*(?:pub(?:\(crate\))?\s+)?rule\s)" % name, src, flags=re.S)
     if not m:
-        raise core.CheckBroken("ex_regex: PEG rule %s not found in pattern.rs" % name)
+        raise core.CheckBroken("ex_c08_regex: PEG rule %s not found in pattern.rs" % name)
     return m.group(1)
 
 
@@ -86,47 +86,47 @@ def extract():
     # flag prefix: exactly one std::format!("(?FLAGS){regex_str}") guarded by `if multiline`
     fm = re.findall(r'if\s+multiline\s*\{.*?std::format!\(\s*"(\(\?[a-zA-Z]*\))\{regex_str\}"\s*\)', rx, flags=re.S)
     if len(fm) != 1:
-        raise core.CheckBroken("ex_regex: compile_regex no longer prefixes the regex with one literal flag group under `if multiline`")
+        raise core.CheckBroken("ex_c08_regex: compile_regex no longer prefixes the regex with one literal flag group under `if multiline`")
     prefix = fm[0]
     flags = prefix[2:-1]
     for f in flags:
         if f not in "msixRU":
-            raise core.CheckBroken("ex_regex: unknown regex flag %r in %r" % (f, prefix))
+            raise core.CheckBroken("ex_c08_regex: unknown regex flag %r in %r" % (f, prefix))
     # Pattern::default(): multiline: true
     pc = _read("brush-core/src/patterns.rs")
     dm = re.search(r"impl\s+Default\s+for\s+Pattern\s*\{.*?multiline\s*:\s*(true|false)", pc, flags=re.S)
     if not dm:
-        raise core.CheckBroken("ex_regex: Pattern::default no longer sets `multiline` literally")
+        raise core.CheckBroken("ex_c08_regex: Pattern::default no longer sets `multiline` literally")
     pat_multiline = dm.group(1) == "true"
     # anchors pushed by to_regex_str
     if not (re.search(r"if\s+strict_prefix_match\s*\{\s*regex_str\.push\('\^'\);", pc) and
             re.search(r"if\s+strict_suffix_match\s*\{\s*regex_str\.push\('\$'\);", pc)):
-        raise core.CheckBroken("ex_regex: to_regex_str no longer pushes '^' / '$' under strict_prefix_match / strict_suffix_match")
+        raise core.CheckBroken("ex_c08_regex: to_regex_str no longer pushes '^' / '$' under strict_prefix_match / strict_suffix_match")
     em = re.search(r"pub\s+fn\s+exactly_matches.*?self\.to_regex\(\s*(true|false)\s*,\s*(true|false)\s*\)", pc, flags=re.S)
     if not em:
-        raise core.CheckBroken("ex_regex: exactly_matches no longer calls self.to_regex(<bool>, <bool>)")
+        raise core.CheckBroken("ex_c08_regex: exactly_matches no longer calls self.to_regex(<bool>, <bool>)")
     anchor_start, anchor_end = em.group(1) == "true", em.group(2) == "true"
     # class names
     cc = _peg_rule(pt, "char_class")
     names = re.findall(r'"([a-z]+)"', cc)
     if not names or re.sub(r'"[a-z]+"|\s|/', "", cc) != "":
-        raise core.CheckBroken("ex_regex: rule char_class is no longer an ordered choice of string literals: %r" % cc)
+        raise core.CheckBroken("ex_c08_regex: rule char_class is no longer an ordered choice of string literals: %r" % cc)
     # extglob prefixes
     ep = _peg_rule(pt, "extended_glob_prefix")
     pre = re.findall(r'"(.)"\s*\{\s*ExtendedGlobKind::(\w+)\s*\}', ep)
     if len(pre) != 5 or re.sub(r'"."\s*\{\s*ExtendedGlobKind::\w+\s*\}|\s|/', "", ep) != "":
-        raise core.CheckBroken("ex_regex: rule extended_glob_prefix changed shape: %r" % ep)
+        raise core.CheckBroken("ex_c08_regex: rule extended_glob_prefix changed shape: %r" % ep)
     kinds = {"Plus": "EPlus", "At": "EAt", "Exclamation": "EBang", "Question": "EQuest", "Star": "EStar"}
     for _, k in pre:
         if k not in kinds:
-            raise core.CheckBroken("ex_regex: unknown extglob kind %s" % k)
+            raise core.CheckBroken("ex_c08_regex: unknown extglob kind %s" % k)
     iv = _peg_rule(pt, "invert_char")
     im = re.fullmatch(r"\s*\[((?:\s*'.'\s*\|?)+)\]\s*\{\s*true\s*\}\s*", iv)
     if not im:
-        raise core.CheckBroken("ex_regex: rule invert_char changed shape: %r" % iv)
+        raise core.CheckBroken("ex_c08_regex: rule invert_char changed shape: %r" % iv)
     inv = re.findall(r"'(.)'", im.group(1))
     out = []
-    out.append("(** GENERATED by translator/ex_regex.py from brush-core/src/regex.rs, brush-core/src/patterns.rs and")
+    out.append("(** GENERATED by translator/ex_c08_regex.py from brush-core/src/regex.rs, brush-core/src/patterns.rs and")
     out.append("    brush-parser/src/pattern.rs - do not edit. *)")
     out.append("From BV Require Import Base.Prelude.")
     out.append("")
@@ -152,8 +152,8 @@ def extract():
                "; ".join("(%d%%N, %s)" % (ord(c), kinds[k]) for c, k in pre))
     out.append("(* pattern.rs rule invert_char *)")
     out.append("Definition invert_chars : list char := %s." % nlist(inv))
-    return regen.write_if_changed("RegexTables.v", "\n".join(out) + "\n")
+    return regen.write_if_changed("C08RegexTables.v", "\n".join(out) + "\n")
 
 
-EXTRACTORS = {"regex_tables": extract}
-USES = {"C08": ["regex_tables"]}
+EXTRACTORS = {"c08_regex": extract}
+USES = {"C08": ["c08_regex"]}
